@@ -41,6 +41,7 @@ let props : (string * prop) list = [
   "C07", sess_prop P_sess.check_C07 P_sess.nontrivial;
   "C08", sess_prop P_sess.check_C08 P_sess.nontrivial;
   "C10", sess_prop P_sess.check_C10 P_sess.nontrivial;
+  "C10", { tag = "c10huge"; check = P_c04.check_streamed; cross_header = ""; cross_footer = ""; nontrivial = P_c04.nontrivial_other };
   "C13", sess_prop P_sess.check_C13 P_sess.nontrivial;
   "C19", sess_prop P_sess.check_C19 P_sess.nontrivial;
   "C20", { tag = "c20"; check = P_c20.check; cross_header = P_c20.cross_header;
